@@ -41,6 +41,22 @@ NOTES = {
  'C18-s4': 'MISSED (a fresh array for every call); caught after the same array object is rescaled in place between two MAC calls',
  'C19-s4': 'MISSED (index corruptions renamed a label, never re-ordered rows); caught after the reorder-rows corruption (relaxed oracle: ValueError or a geometry aligned by label) was added',
  'C20-s4': 'MISSED (ordmin = 0 only); caught after a sub-lattice with ordmin 1 and 2 was added',
+ 'C01-s5': 'MISSED (all modes further apart than the extraction tolerance); caught after the pole placement "close" (two modes 3 % apart, inside the default rtol) was added to the lattice',
+ 'C02-s5': 'MISSED (global mode-shape matrices of unit level only); caught after the level of the global matrix became an axis (1e-6, 1e-3, 1, 1e3, 1e6) on the function and class routes',
+ 'C03-s5': 'MISSED (ordmax = 2m only); caught after ordmax rotates over 2m, 2m+2 and the two ends of the band br*nref < ordmax <= (br+1)*nref (wide reference block; capped by the rows of the shifted global observability matrix)',
+ 'C04-s5': 'MISSED (power-of-two segment lengths only; the frequency grid was already compared); caught after nxseg 65, 100, 127 (thorough 255, 2047) were added on both routes',
+ 'C06-s5': 'MISSED (extraction entered through mpe only); caught after the entry point became an axis {mpe, mpe_from_plot} (dialog replaced by a stand-in returning grid lines) with three call forms and DF omitted / non-default, on all five FDD-family classes',
+ 'C07-s5': 'MISSED (fs 1 and 100, thorough 12.8); caught after the non-integer sampling rates 0.64, 1.6, 2.56, 6.25, 12.5, 102.4 Hz were added as a covering sub-lattice on both routes',
+ 'C08-s5': 'MISSED (every run got a fresh copy of the record); caught after same-object sequences were added: one ndarray (one list of ndarrays) handed to successive setups at k*fs, rescaled and permuted in place between the runs',
+ 'C09-s5': 'MISSED (criteria always written as Python bool/float); caught after the form of the criteria values rotates (bool / numpy.bool_ / int for the flag; float / numpy.float64 / int / numpy.int64 for integral limits)',
+ 'C10-s5': 'MISSED (labels never judged with the uncertainty option on); caught after the route SSIcov.run with calc_unc=True and a cov_max axis (off, default, tighter, rejects all) over designed uncertainty tables was added',
+ 'C11-s5': 'MISSED (one extraction per fresh table; inputs not compared after the call); caught after every call compares the tables handed in (and the stored result tables) with their pristine bytes, and after chains of two (thorough three) extractions on the same objects were added',
+ 'C12-s5': 'MISSED (records of at most a few thousand samples); caught after the long-record region was added (numbers of averaged products around 2**12, 2**14, 2**16, 2**17 and mid-octave lengths up to 3*2**16+50; three methods, three dtypes)',
+ 'C13-s5': 'MISSED (11-smooth segment lengths only); caught after lengths with a prime factor >= 13 were added (17, 26, 39, 52, 65, 998, 1018, 1023, 4082; thorough also 34, 514) in all four parts',
+ 'C16-s5': 'MISSED (dialog always opened with the default frequency limits); caught after band variants were added (SSI (3, 7), FDD (2.5, 9.2); thorough also pLSCF (0, 8.5), FDD (3, 7)) in which some clicks and some poles lie outside the band',
+ 'C17-s5': 'MISSED (random systems never have two poles of equal natural frequency); caught after the designed region "coincident natural frequencies" (two modes, or a mode and a real pole, tuned to f_b = f_a(1+offset), offset 0 and 1e-6) was added on the exact and the data route',
+ 'C18-s5': 'MISSED (complex128 / float64 arrays only); caught after the storage dtype of the shapes became an axis (int64, int32, float32, float64, complex64, complex128; every ordered pair for the two-argument indicators)',
+ 'C20-s5': 'MISSED (every figure drawn in a fresh state, order step 1 only); caught after history cases were added: a second drawing of the same table shape in the same (forked, otherwise untouched) process after the same chart / the other hide_poles value / another table / another step, steps 1, 2, 3',
  'C20-s2': 'MISSED by the quick tier of the first version of C20 (CMIF with a frequency window only in the thorough tier); caught after the window was added to the quick tier',
 }
 def main():
@@ -61,6 +77,12 @@ def main():
         m = json.load(open(d + '/meta.json'))
         runs = last.get(name, ['(not yet verified)'])
         ver = runs[-1]
+        if 'baseline on patched: skipped' in ver:        # baseline confirmed in an earlier run of the same patch
+            for r in reversed(runs[:-1]):
+                b = re.search(r'baseline on patched: (\d+/\d+)', r)
+                if b:
+                    ver = ver.replace('baseline on patched: skipped', f'baseline on patched: {b.group(1)} (earlier run)')
+                    break
         if re.search(r'C\d\d \w+: exit=1', ver):
             ncaught += 1
         c = lambda x: str(x or '').replace('|', '/').replace('\n', ' ')[:420]
